@@ -5,10 +5,13 @@ import (
 	"fmt"
 	"os"
 	"runtime"
+	"runtime/debug"
 	"strconv"
 	"testing"
 	"time"
 
+	"github.com/cockroachdb/pebble/verifharness/dbm"
+	"github.com/cockroachdb/pebble/vfs/errorfs"
 	"pgregory.net/rapid"
 )
 
@@ -38,5 +41,130 @@ func TestDbg(t *testing.T) {
 				os.WriteFile(fmt.Sprintf("/var/tmp/mut/fault/stacks-%d.txt", i), buf, 0o644)
 			}
 		}
+	}
+}
+
+// TestDbgReplay: FAULT_REPLAY=file [FAULT_REPEAT=n] executes one plan.
+func TestDbgReplay(t *testing.T) {
+	f := os.Getenv("FAULT_REPLAY")
+	if f == "" {
+		t.Skip()
+	}
+	b, err := os.ReadFile(f)
+	if err != nil {
+		t.Fatal(err)
+	}
+	var p Plan
+	if err := json.Unmarshal(b, &p); err != nil {
+		t.Fatal(err)
+	}
+	n, _ := strconv.Atoi(os.Getenv("FAULT_REPEAT"))
+	fails := 0
+	var stacks []string
+	if os.Getenv("FAULT_STACK") != "" {
+		debugFire = func(op errorfs.Op) {
+			stacks = append(stacks, fmt.Sprintf("%v %s\n%s", op.Kind, op.Path, debug.Stack()))
+		}
+	}
+	for i := 0; i < max(n, 1); i++ {
+		stacks = nil
+		out, err := exec(p)
+		if err != nil {
+			fails++
+			if fails == 1 {
+				fmt.Printf("%v\n   ERR: %v\n", out.Labels, err)
+				for _, s := range stacks {
+					fmt.Println(s)
+				}
+			}
+		}
+	}
+	fmt.Printf("failures: %d of %d\n", fails, max(n, 1))
+}
+
+func TestDbgFinding(t *testing.T) {
+	if os.Getenv("FAULT_FINDING") == "" {
+		t.Skip()
+	}
+	b, _ := os.ReadFile("/var/tmp/mut/fault/dbg-126.json")
+	var p Plan
+	json.Unmarshal(b, &p)
+	p.Opt.DisableAutoCompaction = true
+	for n := 1; n <= 14; n++ {
+		p.Rules = []Rule{{Kinds: []string{"read"}, Classes: []string{"sst"}, From: 4, Nth: n}}
+		p.Opt.CacheSize = 1 << 10
+		p.Steps = []Step{
+			{K: "write", Ops: []dbm.Op{{K: "set", A: "a@1", V: "v1"}, {K: "set", A: "c", V: "v2"}, {K: "rkset", A: "aa", B: "bb", S: 2, V: "r1"}, {K: "set", A: "e@5", V: "v3"}}, Sync: true},
+			{K: "flush"},
+			{K: "write", Ops: []dbm.Op{{K: "set", A: "a@2", V: "v4"}, {K: "set", A: "d", V: "v5"}, {K: "rkset", A: "b", B: "c", S: 3, V: "r2"}}, Sync: true},
+			{K: "flush"},
+			{K: "compact", A: "a", B: "z"},
+			{K: "faultsoff"},
+		}
+		p.End = EndPlan{Surv: []int{0}}
+		fails := 0
+		var first string
+		var labels []string
+		for i := 0; i < 5; i++ {
+			out, err := exec(p)
+			labels = out.Labels
+			if err != nil {
+				fails++
+				first = err.Error()
+			}
+		}
+		fmt.Printf("nth=%d fails=%d/5 %v\n    %s\n", n, fails, labels, first)
+	}
+}
+
+func TestDbgKnown(t *testing.T) {
+	if os.Getenv("FAULT_KNOWN") == "" {
+		t.Skip()
+	}
+	for _, k := range knownPlans() {
+		fails := 0
+		var e error
+		for i := 0; i < 20; i++ {
+			if _, err := exec(k.Plan); err != nil {
+				fails++
+				e = err
+			}
+		}
+		fmt.Printf("%s: %d/20 fail: %v\n", k.Signature, fails, e)
+		p := k.Plan
+		p.NoExclude = false
+		out, err := exec(p)
+		fmt.Printf("with exclusion: excluded=%q labels=%v err=%v\n", out.Excluded, out.Labels, err)
+	}
+}
+
+func TestDbgFinding2(t *testing.T) {
+	if os.Getenv("FAULT_FINDING2") == "" {
+		t.Skip()
+	}
+	p := knownPlans()[0].Plan
+	p.Opt.ValueBlocks = true
+	for n := 1; n <= 16; n++ {
+		p.Rules = []Rule{{Kinds: []string{"read"}, Classes: []string{"sst"}, From: 4, Nth: n}}
+		p.Steps = []Step{
+			{K: "write", Ops: []dbm.Op{{K: "set", A: "b@4", V: "v1"}, {K: "set", A: "b@3", V: "v2"}}, Sync: true},
+			{K: "flush"},
+			{K: "write", Ops: []dbm.Op{{K: "set", A: "a", V: "v3"}, {K: "set", A: "b@4", V: "v4"}}, Sync: true},
+			{K: "flush"},
+			{K: "compact", A: "a", B: "z"},
+			{K: "faultsoff"},
+		}
+		fails := 0
+		var first string
+		var labels []string
+		for i := 0; i < 5; i++ {
+			out, err := exec(p)
+			labels = out.Labels
+			if err != nil {
+				fails++
+				first = err.Error()
+			}
+		}
+		fmt.Printf("nth=%d fails=%d/5 %v\n    %s\n", n, fails, labels, first)
 	}
 }
